@@ -16,7 +16,7 @@ From Astisub Require Import Kit.Base Kit.Scan Model.Srt Model.Vtt Model.Ttx Proo
 From Astisub Require Import Model.Ssa Proofs.SsaIgnore Model.SsaC Proofs.SsaChk.
 From Astisub Require Import Kit.Chk Model.SrtC Model.VttC Proofs.SrtChk Proofs.VttChk Model.Dur Model.DurC Proofs.DurChk.
 From Astisub Require Import Model.Stl Model.StlIO Proofs.StlBlocks Proofs.StlIOProofs.
-From Astisub Require Import Kit.Xml Model.Ttml Model.PlainTtml Proofs.TtmlBase Proofs.TtmlIO.
+From Astisub Require Import Kit.Xml Model.Ttml Model.PlainTtml Proofs.TtmlBase Proofs.TtmlIO Model.TtmlGo Proofs.TtmlGoProofs.
 From Astisub Require Model.TtmlC Proofs.TtmlChk.
 Import ListNotations.
 
@@ -97,8 +97,8 @@ Theorem C08_ttml_reader_total_bytes : forall data (p : N), read_ttml_bytes data 
 Proof. exact read_ttml_bytes_total. Qed.
 Theorem C08_ttml_writer_total : forall d (p : N), write_ttml d <> Panic p.
 Proof. exact write_ttml_total. Qed.
-Theorem C08_ttml_writer_total_bytes : forall ind d (p : N), write_ttml_bytes ind d <> Panic p.
-Proof. exact write_ttml_bytes_total. Qed.
+Theorem C08_ttml_writer_total_bytes : forall ind d (p : N), write_ttml_bytes_go ind d <> Panic p.
+Proof. exact write_ttml_bytes_go_total. Qed.
 
 Print Assumptions C08_ttml_reader_total.
 Print Assumptions C08_ttml_reader_total_bytes.
@@ -214,8 +214,10 @@ Print Assumptions C08_ssa_unguarded_callback_panics.
    never return Panic; the content of each equation is that the guard implies the access is in range / non-nil / non-zero /
    of the asserted type.  The driver runs the checked functions.  Model/StlCW.v does the same for the writer's two-level
    nil tests on the cue list (Item.InlineStyle / STLJustification / STLPosition, LineItem.InlineStyle / *bool).
-   The C08_stl_unguarded_* examples show that dropping a guard makes a site reachable.  Boundary of the model, as for the
-   other writers (notes/C01.md): a nil *Item inside the cue list is dereferenced without a guard (C08_stl_unguarded_nil_item). *)
+   The C08_stl_unguarded_* examples show that dropping a guard makes a site reachable.  A nil *Item inside the cue list:
+   WriteToSTL filters the list through nonNilItems before anything looks at it (repo 4240852), the checked cue list goes
+   through Kit.Chk.somes (C08_stl_writer_total_nil_items, C08_stl_nil_items_skipped below); C08_stl_unguarded_nil_item is the
+   code before that filter. *)
 From Coq Require Import ZArith.
 From Astisub Require Import Kit.Chk Gen.StlTables Model.StlC Proofs.StlChk Model.StlCW Proofs.StlChk2.
 Theorem C08_stl_checked_reader_total : forall (ign : bool) (data : list N) (p : N), read_stl_c ign data <> Panic p.
@@ -230,7 +232,7 @@ Theorem C08_stl_checked_gsi_block : forall b, length b = 1024%nat -> parse_gsi_c
 Proof. exact parse_gsi_c_ok. Qed.
 Theorem C08_stl_checked_tti_block : forall (p : list N) (fps : Z), length p = 128%nat -> fps <> BinNums.Z0 -> parse_tti_c p fps = Ok (parse_tti p fps).
 Proof. exact parse_tti_c_ok. Qed.
-Theorem C08_stl_checked_cue_list : forall (l : list gitem) (p : N), items_c (map Some l) = Ok (map item_flat l) /\ items_c (map Some l) <> Panic p.
+Theorem C08_stl_checked_cue_list : forall (l : list (option gsitem)) (p : N), items_c l = Ok (map item_flat (somes l)) /\ items_c l <> Panic p.
 Proof. intros l p. split; [apply items_c_ok | apply items_c_no_panic]. Qed.
 (* the tables the guards rely on, from the code of this run *)
 Theorem C08_stl_checked_tables :
@@ -247,8 +249,8 @@ Example C08_stl_unguarded_frame_rate : forall f, frames_ns_c f BinNums.Z0 = Pani
 Proof. exact frames_zero_rate_panics. Qed.
 Example C08_stl_unguarded_leading_mark : enc_step_unguarded [] 768 = Panic 1060 /\ enc_step_c [] 768 = Ok [193%N].
 Proof. split; [exact enc_unguarded_leading_mark_panics | exact enc_guarded_leading_mark]. Qed.
-Example C08_stl_unguarded_nil_item : items_c [None] = Panic 702.
-Proof. exact items_c_nil_item. Qed.
+Example C08_stl_unguarded_nil_item : items_unguarded_c [None] = Panic 702 /\ items_c [None] = Ok nil.
+Proof. exact items_unguarded_nil_item. Qed.
 Print Assumptions C08_stl_checked_reader_total.
 Print Assumptions C08_stl_checked_writer_total.
 Print Assumptions C08_stl_checked_reader_agrees.
@@ -257,6 +259,26 @@ Print Assumptions C08_stl_checked_gsi_block.
 Print Assumptions C08_stl_checked_tti_block.
 Print Assumptions C08_stl_checked_cue_list.
 Print Assumptions C08_stl_checked_tables.
+(* WriteToSTL on the Go-shaped cue list: []*Item with nil elements anywhere, Item.InlineStyle / STLJustification / STLPosition
+   and LineItem.InlineStyle / the three *bool possibly nil (Model/StlCW.v gsitem; write_stl_items_c = the checked cue list,
+   then the checked writer of Model/StlC.v).  No panic site is reachable; the bytes are the writer model's on the flattened
+   list of the non-nil elements; a nil element anywhere changes nothing (stl.go 943: "s.Items = nonNilItems(s.Items)" before
+   the emptiness test, newGSIBlock - TNB, TNS, TCF from Items[0] - and the loop); a list of nil elements only is "nothing
+   to write".  The driver suite stlwritem runs write_stl_items_c on the harness's cue lists WITH their nil elements. *)
+Theorem C08_stl_writer_total_nil_items : forall now md (l : list (option gsitem)) (p : N), write_stl_items_c now md l <> Panic p.
+Proof. exact write_stl_items_c_no_panic. Qed.
+Theorem C08_stl_nil_items_skipped : forall now md (l : list gsitem) (a b : list (option gsitem)),
+  write_stl_items_c now md (map Some l) = write_stl_c now md (map item_flat l) /\
+  write_stl_items_c now md (a ++ None :: b) = write_stl_items_c now md (a ++ b).
+Proof.
+  intros now md l a b. split; [|apply write_stl_items_c_nil_skipped].
+  rewrite write_stl_items_c_ok, somes_map_Some, write_stl_c_ok. reflexivity.
+Qed.
+Theorem C08_stl_only_nil_items : forall now md n, write_stl_items_c now md (repeat None n) = Err ENothingToWrite.
+Proof. intros now md n. rewrite write_stl_items_c_all_nil. reflexivity. Qed.
+Print Assumptions C08_stl_writer_total_nil_items.
+Print Assumptions C08_stl_nil_items_skipped.
+Print Assumptions C08_stl_only_nil_items.
 (* ---- TTML: checked transcriptions (Model/TtmlC.v) ----
    Every run-time panic site of ttml.go and of propagateTTMLAttributes (regexp sub-match indices and the slicing of
    the text by them, the Begin/End pointers of a paragraph, the stores into the style/region maps, the nil-able
@@ -359,3 +381,39 @@ Print Assumptions C08_vtt_guards_load_bearing.
 Print Assumptions C08_dur_guards_load_bearing.
 Print Assumptions C08_vtt_checked_line_agrees.
 Print Assumptions C08_vtt_checked_common_prefix_agrees.
+Print Assumptions C08_TTML.C08_ttml_checked_time_agrees.
+Print Assumptions C08_TTML.C08_ttml_checked_reader_agrees.
+Print Assumptions C08_TTML.C08_ttml_checked_writer_agrees.
+(* ---- TTML: nil items, and what the guards protect (audit 2, N6) ----
+   WriteToTTML starts with s.Items = nonNilItems(s.Items) (ttml.go:690): write_ttml_items_c takes the item list with
+   its nil elements and filters it as the code does.  No panic whatever the nil elements; they are skipped; a list of
+   nil items only is refused.  C08_ttml_guards_needed: model functions (out_header_c, styles_loop_c) or their variants
+   with ONE guard made optional (out_attrs_g, out_p_g, propagate_g; with the guard kept they are the model functions by
+   reflexivity: out_attrs_g_kept, out_p_g_kept, propagate_g_kept) reach the panic site the guard protects. *)
+Module C08_TTML_N6.
+Import Astisub.Model.TtmlC Astisub.Proofs.TtmlChk.
+Theorem C08_ttml_writer_total_nil_items : forall items w (p : N), write_ttml_items_c items w <> Panic p.
+Proof. exact write_ttml_items_c_total. Qed.
+Theorem C08_ttml_nil_items_skipped : forall (l : list ttc_witem) (a b : list (option ttc_witem)) w,
+  somes a = [] -> somes b = [] ->
+  write_ttml_items_c (a ++ map Some l ++ b) w = write_ttml_items_c (map Some l) w.
+Proof. exact ttml_nil_items_skipped. Qed.
+Example C08_ttml_only_nil_items : forall w, write_ttml_items_c [None; None] w = Err ENothingToWrite.
+Proof. exact ttml_only_nil_items. Qed.
+Theorem C08_ttml_guards_kept : forall s it a,
+  out_attrs_g true s = out_attrs_c s /\ out_p_g true it = out_p_c it /\ propagate_g true a = propagate_c a.
+Proof. intros s it a. repeat split. Qed.
+Example C08_ttml_guards_needed :
+  out_header_c s_region [([114], None)] 690 691 693 694 [114] = Panic 690 /\
+  out_attrs_g false None = Panic 560 /\ out_attrs_g true None = Ok no_attrs /\
+  styles_loop_c [mkStyle [] None no_attrs] None None = Panic 375 /\
+  out_p_g false (mkTWitem 0 0 None None None []) = Panic 763 /\
+  (exists n, out_p_g true (mkTWitem 0 0 None None None []) = Ok n) /\
+  propagate_g false (ttc_extent_only [56; 48; 37]) = Panic 10394 /\
+  propagate_g true (ttc_extent_only [56; 48; 37]) = Ok tt.
+Proof. exact ttml_unguarded_sites. Qed.
+End C08_TTML_N6.
+Print Assumptions C08_TTML_N6.C08_ttml_writer_total_nil_items.
+Print Assumptions C08_TTML_N6.C08_ttml_nil_items_skipped.
+Print Assumptions C08_TTML_N6.C08_ttml_guards_kept.
+Print Assumptions C08_TTML_N6.C08_ttml_guards_needed.
